@@ -138,7 +138,7 @@ JANET_CORE_FN(cfun_tuple_join,
         int32_t len = 0;
         const Janet *vals = NULL;
         janet_indexed_view(argv[i], &vals, &len);
-        memcpy(tup_cursor, vals, len * sizeof(Janet));
+        safe_memcpy(tup_cursor, vals, len * sizeof(Janet));
         tup_cursor += len;
     }
     return janet_wrap_tuple(janet_tuple_end(tup));
